@@ -1194,6 +1194,18 @@ class Engine:
             if len(sel) > 1:
                 raise TranslationError(f"ambiguous trait call {callee}: {[c.name for c in sel]}")
             return None, None
+        # `initializers::<impl epoch::Epoch>::from_tai_duration` (inherent impl in another module)
+        im = re.match(r"^([\w:]+)::<impl ([\w:<>]+)>::(\w+)$", callee)
+        if im:
+            modp = im.group(1)
+            sel = [it for it in cands if "<impl at" in it.name and (it.name.startswith(modp + "::") or ("::" + modp + "::") in it.name)
+                   and self._params_match(it, argtys, None)]
+            names = {it.name for it in sel}
+            if len(names) == 1:
+                return sel[0], None
+            if len(names) > 1:
+                raise TranslationError(f"ambiguous call {callee}: {sorted(names)}")
+            return None, None
         # inherent / path call:  duration::Duration::from_parts  ->  duration::<impl at ..>::from_parts
         parts = callee.split("::")
         if len(parts) >= 2 and "<" not in callee:
